@@ -508,7 +508,7 @@ static void on_signal(int sig)
   _exit(70);
 }
 
-static const int MARGIN = 64;
+static long MARGIN = 64; /* set per movement: 512 + span of the copies, so that a misplaced copy stays inside the buffer */
 static const unsigned char CAN = 0xC7;
 static unsigned char pat(long i)
 {
@@ -532,6 +532,7 @@ static void test_movement(MPI_Datatype T, MPI_Datatype leaf, long u, const Model
     if (minstart < 0)
       continue; /* cannot happen with non-negative parameters; be safe */
     long total = m.size * count;
+    MARGIN     = 512 + 2 * maxend;
     long span  = maxend + MARGIN;
     /* overlap? */
     bool overlap = false;
@@ -840,6 +841,18 @@ int main(int argc, char** argv)
   for (int s : {SIGSEGV, SIGBUS, SIGFPE, SIGABRT})
     sigaction(s, &sa, nullptr);
   build_alphabets();
+  if (!strcmp(mode, "probe")) { /* may an uncommitted derived type be the old type of a constructor? (MPI: yes) */
+    MPI_Datatype v, sa = MPI_DATATYPE_NULL;
+    int sizes[2] = {2, 2}, subs[2] = {1, 1}, starts[2] = {0, 0};
+    MPI_Type_vector(2, 1, 2, MPI_BYTE, &v);
+    int rc = MPI_Type_create_subarray(2, sizes, subs, starts, MPI_ORDER_C, v, &sa);
+    if (rc != MPI_SUCCESS)
+      printf("V kind=api/subarray-of-uncommitted-type fam=probe leaf=B idx=0 mode=probe tree=subarray(C:1/2+0,1/2+0)[vector(2,1,2)[B]]-uncommitted rank=%d what=create-error rc=%d\n", me, rc);
+    printf("N rank=%d mode=probe fam=probe leaf=B trees=1 total_trees=1\n", me);
+    fflush(stdout);
+    MPI_Finalize();
+    return 0;
+  }
   MPI_Datatype leaf = leafc == 'B' ? MPI_BYTE : MPI_INT;
   long u            = leafc == 'B' ? 1 : 4;
   /* FULL instances that make sense directly on a leaf: struct patterns with the leaf next to the sub-tree only differ when
